@@ -110,7 +110,14 @@ def main(argv=None):
     else:
         ctx = mp.get_context("fork")
         with ctx.Pool(min(nproc, len(tasks_sorted)), maxtasksperchild=1) as pool:
-            results = pool.map(_worker, [(modname, t) for t in tasks_sorted], chunksize=1)
+            results = []
+            for r in pool.imap_unordered(_worker, [(modname, t) for t in tasks_sorted], chunksize=1):
+                results.append(r)
+                if os.environ.get("VERIF_PROGRESS"):
+                    print(f"[{time.time() - t0:7.0f}s] {len(results)}/{len(tasks_sorted)} {r.get('harness')} "
+                          f"wall={r.get('wall_s')} viol={len(r.get('violations', []))} inc={len(r.get('inconclusive', []))}",
+                          file=sys.stderr, flush=True)
+            results.sort(key=lambda r: str(r.get("harness")))
     known = load_known()
     os.makedirs(os.path.join(HERE, "replays"), exist_ok=True)
     os.makedirs(os.path.join(HERE, "evidence"), exist_ok=True)
